@@ -1,7 +1,9 @@
 package main
 
 import (
+	"bytes"
 	"context"
+	"encoding/base64"
 	"encoding/json"
 	"fmt"
 	"math/rand"
@@ -58,6 +60,46 @@ func runC19(r *Report, rng *rand.Rand, n int) {
 	cases := NewCases("cases_C19", "From V Require Import Model.Prune Model.Filter Corr.Eval.",
 		"filter_cfg * doc * (list string * list (string * string) * list string)", "mismatches_prepare")
 	chunks := NewCases("cases_C19_chunk", "From V Require Import Model.Inline Corr.Eval.", "nat * list nat", "mismatches_chunk")
+	// encoding/base64 against Model/Base64.v: byte strings of every length modulo 3 (all 256 byte values occur), the literals
+	// of generated files, and texts that are no encodings (refused by both)
+	b64enc := NewCases("cases_C19_base64", "From V Require Import Model.Base64 Corr.Eval.\nLocal Open Scope N_scope.", "list N * list N", "mismatches_b64_encode")
+	b64dec := NewCases("cases_C19_base64_decode", "From V Require Import Model.Base64 Corr.Eval.\nLocal Open Scope N_scope.", "list N * option (list N)", "mismatches_b64_decode")
+	b64lit := 0
+	{
+		all := make([]byte, 256)
+		for i := range all {
+			all[i] = byte(i)
+		}
+		inputs := [][]byte{{}, all, all[1:], all[2:]}
+		for l := 1; l <= 12; l++ {
+			b := make([]byte, l)
+			rng.Read(b)
+			inputs = append(inputs, b)
+		}
+		for k := 0; k < 20; k++ {
+			b := make([]byte, rng.Intn(300))
+			rng.Read(b)
+			inputs = append(inputs, b)
+		}
+		for _, b := range inputs {
+			text := base64.StdEncoding.EncodeToString(b)
+			b64enc.Add(fmt.Sprintf("(%s, %s)", coqNs(b), coqNs([]byte(text))), map[string]any{"bytes": b})
+			r.Dist[fmt.Sprintf("base64_len_mod_3=%d", len(b)%3)]++
+			if back, err := base64.StdEncoding.DecodeString(text); err != nil || !bytes.Equal(back, b) {
+				r.Violate("base64_round_trip", fmt.Sprintf("encoding/base64 does not read back what it wrote for %v", b), map[string]any{"bytes": b})
+			}
+		}
+		for _, bad := range []string{"TQ=", "TWFu!", "TQ==TQ==", "T", "TW=u", "=TWF", "TWFu\x00AAA", "TWF"} {
+			obs := "None"
+			if bs, derr := base64.StdEncoding.DecodeString(bad); derr == nil {
+				obs = "(Some " + coqNs(bs) + ")"
+			}
+			b64dec.Add(fmt.Sprintf("(%s, %s)", coqNs([]byte(bad)), obs), map[string]any{"text": bad})
+			r.Dist["base64_not_an_encoding"]++
+		}
+	}
+	defer b64enc.WriteTo(r)
+	defer b64dec.WriteTo(r)
 	var lastTotal int
 	var exclude []string // exclude-schemas: suppresses Go types only, the embedded document keeps the schemas
 	one := func(i int, d *gendoc.Doc, cfg gendoc.FilterCfg, probeOnly bool) {
@@ -104,6 +146,17 @@ func runC19(r *Report, rng *rand.Rand, n int) {
 		if i%4 == 0 || i < 0 {
 			r.Dist[fmt.Sprintf("embedded_len_mod_80=%d", total%80)]++
 			chunks.Add(fmt.Sprintf("(%d, [%s])", total, strings.Join(lens, "; ")), replay)
+		}
+		if b64lit < 8 {
+			// the literal of this generated file, read by the model's base64 and by Go's
+			b64lit++
+			joined := strings.Join(parts, "")
+			obs := "None"
+			if bs, derr := base64.StdEncoding.DecodeString(joined); derr == nil {
+				obs = "(Some " + coqNs(bs) + ")"
+			}
+			b64dec.Add(fmt.Sprintf("(%s, %s)", coqNs([]byte(joined)), obs), replay)
+			r.Dist["base64_literal_of_a_generated_file"]++
 		}
 		root, raw, err := decodeEmbedded(parts)
 		if err != nil {
@@ -276,4 +329,13 @@ func firstDiff(path string, a, b any) string {
 		}
 	}
 	return fmt.Sprintf("%s: %v vs %v", path, a, b)
+}
+
+// coqNs renders bytes as a list of N.
+func coqNs(b []byte) string {
+	parts := make([]string, len(b))
+	for i, x := range b {
+		parts[i] = fmt.Sprint(x)
+	}
+	return "[" + strings.Join(parts, "; ") + "]"
 }
